@@ -45,9 +45,9 @@ use std::{collections::HashMap, sync::Arc};
 pub use chunker::{compute_hash, compute_hash_streaming, Chunk, Chunker, StreamingHasher};
 pub use config::{BlobConfig, GcConfig};
 pub use error::{BlobError, Result};
+pub use gc::GarbageCollector;
 #[cfg(feature = "neumann_verif")]
 pub use gc::VERIF_REFCOUNT_WINDOW;
-pub use gc::GarbageCollector;
 pub use integrity::{check_chunks_exist, find_orphaned_chunks, verify_chunk};
 pub use metadata::{
     ArtifactMetadata, BlobStats, GcStats, MetadataUpdates, PutOptions, RepairStats, SimilarArtifact,
